@@ -45,6 +45,7 @@ def fingerprint(block):
                       getattr(w, 'reset_value', None)))
     nets = []
     mems = {}
+    ports = {}      # the port lists a MemBlock object keeps of itself (analysis reads them)
     for net in block.logic:
         p = net.op_param
         if net.op in 'm@':
@@ -59,13 +60,14 @@ def fingerprint(block):
                         rom = 'partial'
                 mems[id(m)] = (m.name, m.id, m.bitwidth, m.addrwidth, m.asynchronous,
                                type(m).__name__, rom)
+                ports[id(m)] = (m.name, m.id, len(m.readport_nets), len(m.writeport_nets))
         nets.append((net.op, repr(p), tuple(a.name for a in net.args),
                      tuple(d.name for d in net.dests)))
     byname = sorted((k, v.name) for k, v in block.wirevector_by_name.items())
     memnames = sorted(block.memblock_by_name)
     return (sorted(wires, key=repr), sorted(nets, key=repr), sorted(mems.values(), key=repr),
             byname, memnames, sorted(block.legal_ops),
-            sorted(w.name for w in block.rtl_assert_dict))
+            sorted(w.name for w in block.rtl_assert_dict), sorted(ports.values(), key=repr))
 
 
 def io_signature(block):
